@@ -9,10 +9,11 @@ parallel  One generated survey (2-3 sources x 2-3 frequencies, 1-3 receivers,
           gradient = forward + back-propagation, jvec).  While the simulation
           under test runs, `emg3d._multiprocessing.solve` is replaced in the
           parent by a wrapper with the same module/qualname; the forked
-          workers therefore execute the wrapper, which sleeps according to a
-          drawn delay table (a permutation of equally spaced delays <= 0.3 s,
-          keyed by a fingerprint of the task input), calls the real function
-          and appends (pid, task) to a log file.
+          workers therefore execute the wrapper, which calls the real
+          function, holds the result back until the task's target time from a
+          drawn delay table (a permutation of equally spaced delays <= 0.3 s
+          after a 0.15 s head start, keyed by a fingerprint of the task
+          input) and appends (pid, task) to a log file.
 
           Oracle: every slot of get_efield / data.synthetic / back-propagated
           field / jvec, the misfit and the gradient are bit-identical
@@ -44,13 +45,14 @@ RULE = ("Survey: 2-3 sources (electric point / finite dipole / magnetic "
         "x 1-3 receivers (electric/magnetic, absolute/relative), random "
         "heterogeneous model on an 8x8x8 grid (isotropic/VTI, two mappings), "
         "gridding 'same' or 'dict' (a different provided grid per task), "
-        "plain multigrid or the default solver, tol 1e-5, observed data = "
+        "plain multigrid or the default solver, tol 1e-3, observed data = "
         "reference responses x random factors with NaN holes.  Execution "
         "setting: max_workers 1..16, in-memory / file_dir, tqdm present "
         "(bar on/off) / absent, operation compute(+repeat) / gradient / "
-        "jvec; stratified over operation x file mode.  Delay table: a "
-        "permutation (reversed / rotated / interleaved / random) of equally "
-        "spaced sleeps <= 0.3 s injected into the forked workers.  "
+        "jvec; stratified over operation x file mode (plus a few "
+        "max_workers=1 cases).  Delay table: a permutation (reversed / "
+        "rotated / interleaved / random) of equally spaced completion times "
+        "<= 0.45 s after submission, enforced inside the forked workers.  "
         "Non-trivial = in the phase that belongs to the operation (forward / "
         "back-propagation / jvec) the logged completion order differs from "
         "the submission order and >= 2 worker pids took part; distinct by "
@@ -59,8 +61,9 @@ RULE = ("Survey: 2-3 sources (electric point / finite dipole / magnetic "
 ASSUMPTIONS = [
     "workers are forked (Python 3.12, Linux): a module attribute replaced in "
     "the parent before the pool is created is what the workers execute; the "
-    "wrapper only sleeps, calls the real emg3d._multiprocessing.solve and "
-    "appends a line to a log file",
+    "wrapper only calls the real emg3d._multiprocessing.solve, sleeps "
+    "until the task's target time (monotonic clock, used for scheduling "
+    "only) and appends a line to a log file",
     "task identification: Simulation._data_or_file of the instance under "
     "test is wrapped (observation only) to learn which input belongs to "
     "which (what, source, frequency); inputs are not modified",
@@ -75,6 +78,7 @@ SHARDS = {'quick': 1, 'thorough': 4}
 
 TMPBASE = os.path.join(VERIF, '.cache', 'tmp')
 SPAN_SEQ = 0.02          # total sleep budget scale when max_workers == 1
+BASE = 0.15              # head start for worker start-up + first solve
 
 SRC_TYPES = ['TxElectricPoint', 'TxElectricDipole', 'TxMagneticPoint']
 REC_TYPES = ['RxElectricPoint', 'RxMagneticPoint']
@@ -82,7 +86,7 @@ REC_TYPES = ['RxElectricPoint', 'RxMagneticPoint']
 
 # ---------------------------------------------------------------- wrapper
 # State inherited by forked workers.  table: fingerprint -> (key, delay).
-_STATE = {'table': {}, 'log': None, 'real': None}
+_STATE = {'table': {}, 'log': None, 'real': None, 't0': None}
 
 
 def _fingerprint(inp):
@@ -99,14 +103,19 @@ def _fingerprint(inp):
 
 
 def _delayed_solve(inp):
-    """Stand-in for emg3d._multiprocessing.solve (sleep, call, log)."""
+    """Stand-in for emg3d._multiprocessing.solve (call, hold back, log)."""
     try:
         key, delay = _STATE['table'].get(_fingerprint(inp), ('?', 0.0))
     except Exception:    # never let the instrumentation change the outcome
         key, delay = '?', 0.0
-    if delay > 0:
-        time.sleep(delay)
     out = _STATE['real'](inp)
+    # Hold the result back until its target time (relative to the moment the
+    # parent finished preparing the task inputs; CLOCK_MONOTONIC is shared
+    # by the forked workers).  The clock only schedules, it decides nothing.
+    if delay > 0 and _STATE['t0'] is not None:
+        wait = _STATE['t0'] + delay - time.monotonic()
+        if wait > 0:
+            time.sleep(min(wait, 1.0))
     if _STATE['log']:
         fd = os.open(_STATE['log'], os.O_WRONLY | os.O_APPEND | os.O_CREAT)
         try:
@@ -131,6 +140,7 @@ def _instrument(sim, delays):
             _STATE['table'][_fingerprint(out)] = (
                 f"{what}|{source}|{frequency}",
                 float(delays.get((source, frequency), 0.0)))
+            _STATE['t0'] = time.monotonic()
         except Exception:
             pass
         return out
@@ -176,11 +186,13 @@ def _pick(name, salt, values):
     return st.sampled_from(list(values[k:]) + list(values[:k]))
 
 
-def spec_strategy(op, file_mode, salt, tqdm_first=False):
+def spec_strategy(op, file_mode, salt, tqdm_first=False, sequential=False):
     small = [3, 2, 4, 5, 6]
     workers = st.one_of(_pick('w1', salt, small), _pick('w2', salt, [2, 3, 4]),
                         _pick('w3', salt, [2, 3, 4]), _pick('w4', salt, small),
                         st.integers(1, 16))
+    if sequential:
+        workers = st.just(1)
     return st.fixed_dictionaries({
         'op': st.just(op),
         'file': st.just(bool(file_mode)),
@@ -199,7 +211,7 @@ def spec_strategy(op, file_mode, salt, tqdm_first=False):
                                          'default']),
         'case': _pick('case', salt, ['isotropic', 'isotropic', 'VTI']),
         'mapping': _pick('mapping', salt, ['Conductivity', 'LgResistivity']),
-        'tol_gradient': _pick('tolg', salt, [None, 1e-3]),
+        'tol_gradient': _pick('tolg', salt, [None, 1e-2]),
         'relative': _pick('relative', salt, [False, True]),
         'order': _pick('order', salt, ['reversed', 'rotated', 'interleaved',
                                        'random']),
@@ -239,7 +251,10 @@ def _build(spec):
     for i in range(nrec):
         t = REC_TYPES[int(rng.integers(0, 2))] if i else 'RxElectricPoint'
         rel = bool(spec['relative'] and i == nrec-1)
-        lim = 100 if rel else 250
+        # absolute positions stay within +-250 m: strictly inside the second
+        # layer of cells of every grid used (get_receiver returns NaN in the
+        # outermost cell layer)
+        lim = 50 if rel else 250
         xyz = rng.uniform(-lim, lim, 3).round(1)
         az, el = rng.uniform(-180, 180), rng.uniform(-90, 90)
         recs.append((t, (float(xyz[0]), float(xyz[1]), float(xyz[2]),
@@ -253,16 +268,16 @@ def _build(spec):
     tgrids = {}
     for i in range(nsrc):
         for j in range(nfreq):
-            w = float(np.round(rng.uniform(90, 120), 1))
-            shift = rng.uniform(-20, 20, 3).round(1)
+            w = float(np.round(rng.uniform(95, 120), 1))
+            shift = rng.uniform(-15, 15, 3).round(1)
             h = np.ones(8)*w
             tgrids[(i, j)] = emg3d.TensorMesh(
                 [h, h, h], origin=tuple(float(-4*w + s) for s in shift))
 
     if spec['solver'] == 'plain':
-        sopts = {'plain': True, 'tol': 1e-5}
+        sopts = {'plain': True, 'tol': 1e-3}
     else:
-        sopts = {'tol': 1e-5}
+        sopts = {'tol': 1e-3}
     nvec = 2 if spec['case'] == 'VTI' else 1
     vector = rng.standard_normal((nvec, *shape))
     if nvec == 1 and rng.integers(0, 2):
@@ -499,7 +514,8 @@ def _case(spec, rec, emg3d, _mp, tmpd):
     ranks = _ranks(spec['order'], n, spec['rot'], spec['perm'])
     span = spec['span'] if spec['workers'] > 1 else SPAN_SEQ
     step = span/(n-1)
-    delays = {names[t]: ranks[k]*step for k, t in enumerate(tasks)}
+    base = BASE if spec['workers'] > 1 else 0.0
+    delays = {names[t]: base + ranks[k]*step for k, t in enumerate(tasks)}
     kw = {}
     fh = None
     if spec['file']:
@@ -517,9 +533,14 @@ def _case(spec, rec, emg3d, _mp, tmpd):
     def hook(phase):
         lines, state['skip'] = _read_log(log, state['skip'])
         phases[phase] = lines
+        if not lines:
+            raise HarnessError(
+                f"C11: no task of phase '{phase}' went through the delay "
+                "wrapper (workers not forked, or the simulation does not "
+                "call emg3d._multiprocessing.solve any more)")
 
     real_solve, real_tqdm = _mp.solve, _mp.tqdm
-    _STATE.update(table={}, log=log, real=real_solve)
+    _STATE.update(table={}, log=log, real=real_solve, t0=None)
     try:
         _mp.solve = _delayed_solve
         if not spec['tqdm']:
@@ -546,7 +567,7 @@ def _case(spec, rec, emg3d, _mp, tmpd):
     finally:
         _mp.solve = real_solve
         _mp.tqdm = real_tqdm
-        _STATE.update(table={}, log=None, real=None)
+        _STATE.update(table={}, log=None, real=None, t0=None)
         if fh:
             fh.close()
 
@@ -741,9 +762,22 @@ def run(ctx):
     # Stratified over operation x file mode; per stratum Hypothesis' first
     # (simplest) example is a designed one that depends on seed and stratum
     # (see _pick), alternating tqdm present/absent; the rest is random.
-    per = ctx.n(2, 12)
+    if multiprocessing.get_start_method() != 'fork':
+        raise HarnessError("C11 needs the 'fork' start method (the delay "
+                           "wrapper is inherited by forked workers)")
+    per = ctx.n(2, 8)
     for k, (op, fm) in enumerate(STRATA):
         salt = 1000*(ctx.seed % 100000) + 10*ctx.shard[0] + k
         tq = (k + k//2 + ctx.seed + ctx.shard[0]) % 2 == 0
         ctx.explore('parallel', spec_strategy(op, fm, salt, tq),
                     explore_case, per, shrink=False, max_rounds=2, salt=k)
+    # max_workers=1 (sequential map with/without tqdm, mostly file-based):
+    # cheap, never non-trivial by the rule, but part of the quantifier
+    for k in range(ctx.n(1, 3)):
+        op = ('compute', 'gradient', 'jvec')[(ctx.seed + ctx.shard[0] + k) % 3]
+        fm = k != 2
+        salt = 1000*(ctx.seed % 100000) + 10*ctx.shard[0] + 6 + k
+        ctx.explore('parallel',
+                    spec_strategy(op, fm, salt, (ctx.seed + k) % 2 == 0,
+                                  sequential=True),
+                    explore_case, 1, shrink=False, max_rounds=2, salt=6+k)
